@@ -74,7 +74,11 @@ def ok_exit_blocks(b):
                     if r['v'] in ('Ok',):
                         out.append(i)
                     elif r['v'] == 'Some':
-                        out.append(i)
+                        og = b.operand_origins(r['o'][0]) if r['o'] else set()
+                        is_err = any(t.endswith('result::Result::Err') for t in og if t.startswith('agg:'))
+                        is_ok = any(t.endswith('result::Result::Ok') for t in og if t.startswith('agg:'))
+                        if not (is_err and not is_ok):
+                            out.append(i)
                 elif r['k'] == 'agg' and r.get('ak') == 'tuple':
                     out.append(i)
                 elif r['k'] in ('use', 'cast', 'bin', 'un') :
@@ -95,6 +99,10 @@ def err_exit_blocks(b):
         for s in blk['s']:
             if s['d']['l'] == 0 and not s['d']['pr'] and s['r']['k'] == 'agg' and s['r'].get('v') == 'Err':
                 out.append(i)
+            if s['d']['l'] == 0 and not s['d']['pr'] and s['r']['k'] == 'agg' and s['r'].get('v') == 'Some' and s['r']['o']:
+                og = b.operand_origins(s['r']['o'][0])
+                if any(t.endswith('result::Result::Err') for t in og if t.startswith('agg:')) and not any(t.endswith('result::Result::Ok') for t in og if t.startswith('agg:')):
+                    out.append(i)
         t = blk['t']
         if t['k'] == 'call' and t['d']['l'] == 0 and t['f'].get('fn', '').endswith('FromResidual::from_residual'):
             out.append(i)
